@@ -8,7 +8,8 @@ import (
 )
 
 type Cmd struct {
-	Process *vos.Process
+	Process      *vos.Process
+	ProcessState *vos.ProcessState // set by Wait
 }
 
 // Wait blocks until the modelled process has exited, reaps it and returns its status.
@@ -18,5 +19,6 @@ func (c *Cmd) Wait() error {
 	sched.Block(sched.Op{Kind: "proc", Obj: "wait"}, func() bool { return w.Proc.Exited })
 	w.Proc.Reaped = true
 	w.Log = append(w.Log, "reaped")
+	c.ProcessState = vos.State()
 	return vos.WaitResult()
 }
